@@ -265,6 +265,12 @@ pub fn roundtrip(q: &Query, origin: &str, out: &mut Outcome) {
             if nonempty {
                 out.label("meaning:nonempty");
             }
+            if out.labels.iter().any(|l| l == "coll") {
+                out.label("coll:meaning-compared");
+                if nonempty {
+                    out.label("coll:meaning-nonempty");
+                }
+            }
         }
         Meaning::BothErr => {
             out.checks += 1;
@@ -286,26 +292,58 @@ pub fn roundtrip(q: &Query, origin: &str, out: &mut Outcome) {
     }
 }
 
+/// which handle collections a built query carries (kind, size, qualifier)
+fn collection_labels(q: &QSpec) -> Vec<String> {
+    fn walk(c: &CSpec, out: &mut Vec<String>) {
+        match c {
+            CSpec::Coll { kind, picks, meta, depth } => {
+                let n = coll_members(*kind, picks).len();
+                let k = ["ANNOTATIONS", "DATA", "KEYS", "RESOURCES", "TEXTSELECTIONS"][*kind as usize % 5];
+                out.push("coll".to_string());
+                out.push(format!("coll:{}", k));
+                out.push(format!("coll:size{}", n));
+                out.push(format!("coll:{}", if *meta { "metadata" } else { "normal" }));
+                if *kind % 5 == 0 {
+                    out.push(format!("coll:depth{}", depth % 3));
+                }
+            }
+            CSpec::Union(v) => v.iter().for_each(|x| walk(x, out)),
+            _ => {}
+        }
+    }
+    let mut out = vec![];
+    for (_, c) in &q.cons {
+        walk(c, &mut out);
+    }
+    for s in &q.subs {
+        out.extend(collection_labels(s));
+    }
+    out.sort();
+    out.dedup();
+    out
+}
+
 impl Property for C09 {
     type Case = Case;
     fn id(&self) -> &'static str {
         "C09"
     }
     fn rule(&self) -> String {
-        "case = Raw string | Gen (query spec from a typed STAMQL grammar: SELECT/ADD/DELETE, OPTIONAL, 6 result types, names, @attributes, all constraint keywords with qualifiers/RECURSIVE/OFFSET, data operators over string/int/float/datetime/null/any/bool/raw literals, unions nested <=2, LIMIT, sub-queries nested <=2 with siblings, assignments; printed by the harness under a style word, then 0-3 token mutations: delete/duplicate/swap/replace-by-hostile-literal/truncate/glue/insert multi-byte whitespace) | Built (same spec built with Query::new/with_constraint/constrain/with_subquery/with_qualifier). Random strings: \\PC*, arbitrary chars, keyword soups. Enumerated: every keyword in 24 contexts, 45 canonical queries truncated at every character and with each token deleted, numeric literal battery x operator/LIMIT/OFFSET/assignment templates. Every string: Query::parse and TryFrom must not panic; every parsed or built+printable query: print, re-parse (Ok, nothing left), structural dump equal, second print equal, same results on a fixed store. Non-trivial = input gets past query type and result type (reaches constraint/assignment/sub-query parsing) or the query has >=1 constraint/assignment/sub-query; distinct = distinct case JSON.".into()
+        "case = Raw string | Gen (query spec from a typed STAMQL grammar: SELECT/ADD/DELETE, OPTIONAL, 6 result types, names, @attributes, all constraint keywords with qualifiers/RECURSIVE/OFFSET, data operators over string/int/float/datetime/null/any/bool/raw literals, unions nested <=2, LIMIT, sub-queries nested <=2 with siblings, assignments; printed by the harness under a style word, then 0-3 token mutations: delete/duplicate/swap/replace-by-hostile-literal/truncate/glue/insert multi-byte whitespace) | Built (same spec built with Query::new/with_constraint/constrain/with_subquery/with_qualifier; one leaf constraint in ten is a handle collection Constraint::Annotations / Data / Keys / Resources / TextSelections of 0-3 items of the fixed store, with and without AS METADATA, annotations with depth Zero/One/Max; plus dedicated SELECT queries whose first constraint is such a collection in a place where the engine evaluates it). Random strings: \\PC*, arbitrary chars, keyword soups. Enumerated: every keyword in 24 contexts, 45 canonical queries truncated at every character and with each token deleted, numeric literal battery x operator/LIMIT/OFFSET/assignment templates. Every string: Query::parse and TryFrom must not panic; every parsed or built+printable query: print, re-parse (Ok, nothing left), structural dump equal, second print equal, same results on a fixed store. Non-trivial = input gets past query type and result type (reaches constraint/assignment/sub-query parsing) or the query has >=1 constraint/assignment/sub-query; distinct = distinct case JSON.".into()
     }
     fn assumptions(&self) -> Vec<String> {
         vec![
-            "built queries are only judged when they lie in the image of the grammar (strings representable in quotes, no '?'-prefixed ids, no reserved words AS/RECURSIVE/NONE as ids, no RECURSIVE without AS METADATA, no AnnotationDepth::Zero, no KeyValueVariable/handle-based constraints, Equals strings that the lexer types as string); everything else is counted as dontcare:<reason>".into(),
+            "built queries are only judged when they lie in the image of the grammar (strings representable in quotes, no '?'-prefixed ids, no reserved words AS/RECURSIVE/NONE as ids, no RECURSIVE without AS METADATA, no AnnotationDepth::Zero, no KeyValueVariable constraints, Equals strings that the lexer types as string); everything else is counted as dontcare:<reason>".into(),
             "parsed queries whose strings cannot be re-lexed (variable/query names containing whitespace or terminators, ids ending in a backslash) are don't-care: the documentation does not define quoting of variables or escapes other than \\\"".into(),
             "KeyValue{operator: Any} and DataKey are treated as the same structure (to_string canonicalises the former to the latter on purpose)".into(),
             "queries that to_string() rejects (Or/And/HasElement operators, non-finite floats, handle constraints) are outside the statement and counted as 'unprintable'".into(),
             "meaning facet: panics inside the query engine are C08's domain and counted as skipped; queries with an empty TEXT needle are not evaluated (find_text(\"\") does not terminate)".into(),
+            "handle-collection constraints ('constrain by any of multiple ...') have the structure of the disjunction of the corresponding single constraints (ANNOTATION id / DATA set key = value / DATA set key / RESOURCE id / RESOURCE id OFFSET b e, with the collection's qualifier and depth): to_string() must return Err or text that re-parses to that disjunction and prints identically again. meaning is compared (as multisets: a collection and a disjunction may enumerate in a different order) only where the engine evaluates both forms - the collection is the first constraint of its level, outside a disjunction, the level has no sub-queries and no LIMIT, and (result type, kind, qualifier, depth) is implemented for the collection and for the printed disjunction (table transcribed from init_state_*, used to skip only); everything else is counted as meaning:skipped-collection-*".into(),
             "str inputs are valid UTF-8 by construction, so truncation is at every character boundary".into(),
         ]
     }
     fn cases(&self, tier: Tier) -> u64 {
-        tier.pick(2_400_000, 16_000_000)
+        tier.pick(2_510_000, 16_730_000)
     }
     fn enumerate(&self, _tier: Tier) -> Vec<Case> {
         battery().into_iter().map(|s| Case::Raw { s }).collect()
@@ -319,6 +357,8 @@ impl Property for C09 {
             5 => (qspec(depth, true), any::<u64>(), proptest::collection::vec(mutation(), 1..=3))
                 .prop_map(|(q, style, muts)| Case::Gen { q, style, muts }),
             4 => qspec(depth, false).prop_map(|q| Case::Built { q }),
+            // comes on top of the 2 400 000 / 16 000 000 cases of the other kinds (see cases())
+            1 => collection_query().prop_map(|q| Case::Built { q }),
         ]
         .boxed()
     }
@@ -360,6 +400,9 @@ impl Property for C09 {
             }
             Case::Built { q } => {
                 out.label("built");
+                for l in collection_labels(q) {
+                    out.label(&l);
+                }
                 let outside = outside_grammar(q);
                 let built = match catch(|| build_query(q)) {
                     Ok(b) => b,
@@ -387,6 +430,17 @@ impl Property for C09 {
                 }
             }
         }
+        // development aid: C09_SURVEY=<file> appends every failure to that file and lets the run continue
+        if let Ok(path) = std::env::var("C09_SURVEY") {
+            use std::io::Write;
+            if let Ok(mut f) = std::fs::OpenOptions::new().create(true).append(true).open(path) {
+                for x in &out.failures {
+                    let _ = writeln!(f, "{}\t{}\t{}", x.facet, x.signature, x.detail.replace('\n', " "));
+                }
+            }
+            out.failures.clear();
+            out.label("survey_mode");
+        }
         out
     }
 
@@ -396,6 +450,9 @@ impl Property for C09 {
             return v;
         }
         let get = |k: &str| labels.get(k).copied().unwrap_or(0);
+        if get("survey_mode") > 0 {
+            v.push("C09_SURVEY is set: failures were diverted to that file, this run decides nothing".into());
+        }
         let gen = get("gen");
         if gen > 0 && get("gen:parse-ok") * 100 < gen * 70 {
             v.push(format!("only {} of {} unmutated grammar products parse", get("gen:parse-ok"), gen));
@@ -406,7 +463,9 @@ impl Property for C09 {
         for k in [
             "has:ID", "has:ANNOTATION", "has:RESOURCE", "has:DATASET", "has:DATA", "has:VALUE", "has:KEY", "has:TEXT",
             "has:RELATION", "has:SUBSTORE", "has:UNION", "has:LIMIT", "has:subquery", "has:subquery-siblings", "has:OPTIONAL",
-            "has:meta", "has:offset", "has:assignment", "has:attributes", "has:float", "has:datetime", "has:escape",
+            "has:meta", "has:offset", "has:assignment", "has:attributes", "has:float", "has:datetime", "has:escape", "coll:ANNOTATIONS", "coll:DATA",
+            "coll:KEYS", "coll:RESOURCES", "coll:TEXTSELECTIONS", "coll:size0", "coll:size1", "coll:size2", "coll:size3", "coll:metadata",
+            "coll:meaning-nonempty",
         ] {
             if get(k) * 1000 < evals {
                 v.push(format!("label {} seen in only {} of {} cases", k, get(k), evals));
